@@ -523,6 +523,12 @@ pub fn bld() -> BoxedStrategy<Bld> {
                 f.z = z;
                 z += f.height;
             }
+            // separate namespaces per kind: HULC itself writes a GLASS-TYPE and a NAME-FRAME both called "Ninguno"
+            let (mut glasses, mut frames) = (glasses, frames);
+            if salt % 4 == 0 {
+                glasses[0].name = "Ninguno".into();
+                frames[0].name = "Ninguno".into();
+            }
             for (i, s) in shades.iter_mut().enumerate() {
                 match s {
                     ShadeB::Rect { name, .. } | ShadeB::Verts { name, .. } => *name = format!("Sombra{:03}", i + 1),
